@@ -1,6 +1,7 @@
 SPECIFICATION SpecThm
 CONSTANTS
   NV = 5
+  MaxLoadBlockers = 0
   Heavy = FALSE
 VIEW View
 INVARIANT TypeOK
